@@ -905,7 +905,7 @@ def run_stream(ck):
 # end-to-end programs on the instrumented runtime
 # --------------------------------------------------------------------------------------------------
 
-E2E_PROGS = ["tg_nested", "tg_tree", "pfor_affinity", "isolate", "iso_static", "iso_affinity", "enqueue", "cancel", "oversub", "reserved"]
+E2E_PROGS = ["tg_nested", "tg_tree", "pfor_affinity", "isolate", "iso_static", "iso_affinity", "enqueue", "cancel", "oversub", "reserved", "reentrant"]
 E2E_WRAPS = (WRAP_ALLOC_ED, WRAP_ALLOC, WRAP_DEALLOC_ED, WRAP_DEALLOC)
 
 
